@@ -2,6 +2,7 @@ import Driver.Util
 import Hv.Patch.Ops
 import Hv.Patch.Spec
 import Hv.Patch.PatchFields
+import Hv.Patch.Wire
 import Hv.Patch.RoundTrip
 
 /-! Driver for domain C13: runs the Lean model of `msgpackpatch` / `PatchFields` on the op
@@ -163,6 +164,7 @@ def canonNaN : Nat → Nat → Bytes → Bytes
 def treasureOf (s : String) : Option Treasure :=
   if s == "absent" then some Treasure.empty
   else if s == "other" then some { Treasure.empty with content := .other }
+  else if s.startsWith "other@" then ((s.drop 6).toString.toInt?).map fun n => { Treasure.empty with content := .other, exp := n }
   else if s.startsWith "b:" then
     match ((s.drop 2).toString).splitOn "@" with
     | [h] => (unhex h).map fun raw => { Treasure.empty with content := .bytes raw }
@@ -202,20 +204,69 @@ def rmvalDepends (cfg : Cfg) (body : Bytes) (ops : List Op) (cond : Option Condi
   !cfg.rmvalCanon && ops.any (fun o => o.kind == .removeVal) &&
     (applyWithCondition cfg body ops cond != applyWithCondition { cfg with rmvalCanon := true } body ops cond)
 
-def stepPf (pc : PfCfg) (line : String) : Unit × String :=
+/-- the wire number of an operator token: its number in the proto enum, `unk` = 99, `wN` = N -/
+def wireNum {α : Type} [BEq α] (table : List α) (named : String → α) (tok : String) : Int :=
+  if tok.startsWith "w" then ((tok.drop 1).toString.toInt?).getD 99
+  else match table.findIdx? (· == named tok) with
+    | some i => (i : Int)
+    | none => 99
+
+def parseWireOps (w : WireCfg) : List String → Option (List WireOp)
+  | [] => some []
+  | s :: r =>
+    match s.splitOn ":", parseWireOps w r with
+    | [k, p, v], some os =>
+      (match unhex p, unhex v with
+       | some pb, some vb => some (⟨wireNum w.protoOps kindOf k, pb, vb⟩ :: os)
+       | _, _ => none)
+    | _, _ => none
+
+def parseWireCond (w : WireCfg) (s : String) : Option (Option WireCond) :=
+  if s == "-" then some none else
+  match s.splitOn ":" with
+  | [o, p, t] =>
+    match unhex p, unhex t with
+    | some pb, some tb => some (some ⟨pb, wireNum w.protoConds condOpOf o, tb⟩)
+    | _, _ => none
+  | _ => none
+
+/-- a wire number of this request reaches the engine as another operator than the proto names -/
+def wireFlag (w : WireCfg) (ops : List WireOp) (cond : Option WireCond) : String :=
+  let nums := ops.map (·.kind) ++ (match cond with | some c => [c.op] | none => [])
+  let badOp := ops.any (fun o => w.codeOp o.kind != w.docOp o.kind)
+  let badCond := match cond with | some c => w.codeCond c.op != w.docCond c.op | none => false
+  if badOp || badCond then
+    (if nums.any (fun n => n < 0 || n ≥ 256) && w.opOrder == w.protoOps && w.condOrder == w.protoConds
+     then "\t#F:C13-wire-enum-truncated" else "\t#F:C13-wire-enum-misaligned")
+  else ""
+
+def stepPf (pc : PfCfg) (wc : WireCfg) (line : String) : Unit × String :=
   match line.splitOn " " with
-  | "pf" :: sh :: cr :: seedh :: mh :: ch :: opss =>
-    match treasureOf sh, unhex seedh, metaOf mh, parseCond ch, parseOps opss with
+  | verb :: sh :: cr0 :: seedh0 :: mh :: ch :: opss =>
+    -- `pf`: swamp.PatchFields with the engine's own constants; `gp` / `gx`: the two RPCs with wire numbers
+    let wired := verb == "gp" || verb == "gx"
+    let cr := if verb == "gx" then "0" else cr0
+    let seedh := if verb == "gx" then "-" else seedh0
+    let wops := if wired then parseWireOps wc opss else some []
+    let wcond := if wired then parseWireCond wc ch else some none
+    let condP := if wired then wcond.map (·.map wc.convCond) else parseCond ch
+    let opsP := if wired then wops.map (·.map wc.convOp) else parseOps opss
+    match treasureOf sh, unhex seedh, metaOf mh, condP, opsP with
     | some tr, some seed, some m, some cond, some ops =>
+      if verb != "pf" && !wired then ((), "bad-op") else
+      if verb == "gx" && tr.content == .absent then ((), "bad-op") else
       let r := patchFieldsT pc tr ops cond (cr == "1") seed m
       let t := r.treasure
       -- wf: does the parser accept what is stored behind the two prefix bytes
       let w := match t.content with
         | .bytes (_ :: _ :: body) => wf body
         | _ => false
-      let echo := match r.newBody with
+      let echo := if verb == "gp" then "-" else match r.newBody with     -- PatchTreasures does not send NewMsgpack
         | some b => hexOrDash b
         | none => "-"
+      let fw := if wired then wireFlag wc (wops.getD []) ((wcond.getD none)) else ""
+      -- a treasure created from a seed that is not a msgpack map
+      let fsd := if r.status == 1 && !isMapBody (seedOf pc seed) then "\t#F:C13-nonmap-seed-created" else ""
       let b01 := fun (b : Bool) => if b then "1" else "0"
       let f1 := if (r.status == 0 || r.status == 1) && !w then "\t#F:C13-unvalidated-op-value" else ""
       -- the code's status for this error class is not the documented one
@@ -240,11 +291,11 @@ def stepPf (pc : PfCfg) (line : String) : Unit × String :=
               | _, _ => "")
            | .error _ => "")
         else ""
-      ((), s!"st={r.status} {showStored t.content} wf={b01 w} new={echo} exp={t.exp} mat={b01 t.modAt} mby={hexOrDash t.modBy} cat={b01 t.crAt} cby={hexOrDash t.crBy}{f1}{f2}{f3}")
+      ((), s!"st={r.status} {showStored t.content} wf={b01 w} new={echo} exp={t.exp} mat={b01 t.modAt} mby={hexOrDash t.modBy} cat={b01 t.crAt} cby={hexOrDash t.crBy}{f1}{f2}{f3}{fw}{fsd}")
     | _, _, _, _, _ => ((), "bad-op")
   | _ => ((), "bad-op")
 
-def step (cfg : Cfg) (pc : PfCfg) (_ : Unit) (line : String) : Unit × String :=
+def step (cfg : Cfg) (pc : PfCfg) (wc : WireCfg) (_ : Unit) (line : String) : Unit × String :=
   match line.splitOn " " with
   | ["case", _] => ((), line)
   | ["parse", h] =>
@@ -255,7 +306,7 @@ def step (cfg : Cfg) (pc : PfCfg) (_ : Unit) (line : String) : Unit × String :=
       | .error e => ((), s!"err {e}")
       | .ok t => ((), "ok " ++ showNode t)
   | verb :: bh :: ch :: opss =>
-    if verb != "ap" && verb != "apn" then stepPf pc line else
+    if verb != "ap" && verb != "apn" then stepPf pc wc line else
     match unhex bh, parseCond ch, parseOps opss with
     | some body, some cond, some ops =>
       match applyWithCondition cfg body ops cond with
@@ -299,7 +350,20 @@ def run (args : List String) : IO UInt32 := do
     | [a, b, c, d, e, f] => ⟨a, b, c, d, e, f⟩
     | _ => ⟨99, 99, 99, 99, 99, 99⟩
   let seed := (unhex (arg kv "seedDefault")).getD []
-  lineLoop (step cfg ⟨cfg, mg, smap, seed⟩) ()
+  let opsOf (k : String) : List OpKind := ((arg kv k).splitOn ",").map fun t =>
+    match t with
+    | "set" => .set | "delete" => .delete | "inc" => .inc | "append" => .append | "prepend" => .prepend
+    | "removeAt" => .removeAt | "removeVal" => .removeVal | "merge" => .merge | _ => .unknown
+  let condsOf (k : String) : List CondOp := ((arg kv k).splitOn ",").map fun t =>
+    match t with
+    | "eq" => .eq | "ne" => .ne | "gt" => .gt | "ge" => .ge | "lt" => .lt | "le" => .le
+    | "exists_" => .exists_ | "notExists" => .notExists | _ => .unknown
+  -- unrecognised tables / conversion: the documented ones (the verdict is `undetermined` then, flags are no evidence)
+  let orDoc {α : Type} (k : String) (l : List α) (d : List α) : List α := if arg kv k == "unknown" then d else l
+  let conv : WireConv := if arg kv "wireConv" == "cast" then .cast else .castChecked
+  let wc : WireCfg := ⟨orDoc "opOrder" (opsOf "opOrder") protoOpsDoc, orDoc "condOrder" (condsOf "condOrder") protoCondsDoc,
+    orDoc "protoOps" (opsOf "protoOps") protoOpsDoc, orDoc "protoConds" (condsOf "protoConds") protoCondsDoc, conv⟩
+  lineLoop (step cfg ⟨cfg, mg, smap, seed, arg kv "seedMapCheck" == "yes"⟩ wc) ()
   return 0
 
 end Driver.C13
